@@ -14,7 +14,7 @@ META = {
 }
 
 ALLOWED_AXIOMS = ()
-MODEL_VOS = ["Base/Conv.vo", "IO/Dddmp.vo"]
+MODEL_VOS = ["Base/Conv.vo", "IO/Dddmp.vo", "IO/DddmpFile.vo"]
 
 
 def build(ctx):
